@@ -86,33 +86,44 @@ def set_decimal_config() -> None:
         scale: Number of decimal places
     """
     global DECIMAL_WIDTH, DECIMAL_SCALE
-    DECIMAL_WIDTH = int(os.getenv(DECIMAL_WIDTH_ENV_VAR, DECIMAL_WIDTH))
-    DECIMAL_SCALE = int(os.getenv(DECIMAL_SCALE_ENV_VAR, DECIMAL_SCALE))
+    # Validate before publishing: a rejected value must not survive into later runs, and an
+    # unset variable falls back to the documented default, not to the previous run's value.
+    width = _read_int_env(
+        DECIMAL_WIDTH_ENV_VAR, DEFAULT_DECIMAL_WIDTH, MIN_DECIMAL_WIDTH, MAX_DECIMAL_WIDTH
+    )
+    scale = _read_int_env(
+        DECIMAL_SCALE_ENV_VAR, DEFAULT_DECIMAL_SCALE, MIN_DECIMAL_SCALE, MAX_DECIMAL_SCALE
+    )
 
-    if DECIMAL_WIDTH == DISABLE_VALUE:
-        DECIMAL_WIDTH = MAX_DECIMAL_WIDTH
-    if DECIMAL_SCALE == DISABLE_VALUE:
-        DECIMAL_SCALE = MAX_DECIMAL_SCALE
+    if width == DISABLE_VALUE:
+        width = MAX_DECIMAL_WIDTH
+    if scale == DISABLE_VALUE:
+        scale = MAX_DECIMAL_SCALE
 
-    if DECIMAL_SCALE < MIN_DECIMAL_SCALE or DECIMAL_SCALE > MAX_DECIMAL_SCALE:
+    DECIMAL_WIDTH = width
+    DECIMAL_SCALE = scale
+
+
+def _read_int_env(env_var: str, default: int, min_value: int, max_value: int) -> int:
+    """Read an integer setting; anything but DISABLE_VALUE or min..max is a configuration error."""
+    raw = os.getenv(env_var)
+    if raw is None:
+        return default
+    value: Optional[int]
+    try:
+        value = int(raw)
+    except ValueError:
+        value = None
+    if value is None or (value != DISABLE_VALUE and not min_value <= value <= max_value):
         raise RunTimeError(
             code="0-4-1-1",
-            env_var=DECIMAL_SCALE_ENV_VAR,
-            value=DECIMAL_SCALE,
-            min_value=MIN_DECIMAL_SCALE,
-            max_value=MAX_DECIMAL_SCALE,
+            env_var=env_var,
+            value=raw,
+            min_value=min_value,
+            max_value=max_value,
             disable_value=DISABLE_VALUE,
         )
-
-    if DECIMAL_WIDTH < MIN_DECIMAL_WIDTH or DECIMAL_SCALE > MAX_DECIMAL_WIDTH:
-        raise RunTimeError(
-            code="0-4-1-1",
-            env_var=DECIMAL_WIDTH_ENV_VAR,
-            value=DECIMAL_WIDTH,
-            min_value=MIN_DECIMAL_WIDTH,
-            max_value=MAX_DECIMAL_WIDTH,
-            disable_value=DISABLE_VALUE,
-        )
+    return value
 
 
 # =============================================================================
